@@ -285,3 +285,14 @@ theorem bytesField_length_ge (num : Nat) (b : List UInt8) : b.length ≤ (encByt
   unfold encBytesField; simp only [List.length_append]; omega
 
 end Nebula.Lemmas.CertV1RT
+
+namespace Nebula.Lemmas.CertV1RT
+open Nebula.Net Nebula.Cert
+
+/-- a small v1 certificate for the non-vacuity examples. -/
+def exV1Cert : Cert :=
+  { version := 1, curve := 1, name := [104], networks := [⟨⟨.v4, 0x0a000001⟩, 24⟩], unsafeNetworks := [⟨⟨.v4, 0x0a090000⟩, 16⟩],
+    groups := [[103], []], isCA := false, notBefore := 1000000000, notAfter := -2000000000, issuer := "ab",
+    publicKey := [1, 2, 3], signature := [9, 9] }
+
+end Nebula.Lemmas.CertV1RT
